@@ -309,3 +309,159 @@ func rulePayloadMirror(p *Prog, r *RuleResult) {
 	}
 	r.floor(3, npairs, "static-model encoder/decoder pairs")
 }
+
+// ---------------------------------------------------------------------------------------
+// R-CHUNK-STATE: state carried from one chunk to the next agrees between encoder and decoder
+// ---------------------------------------------------------------------------------------
+
+func init() {
+	register("R-CHUNK-STATE", "encoder and decoder of an entropy codec carry the same kinds of local state from one chunk of a block to the next (what one side re-initialises per chunk, the other does too)", false, ruleChunkState)
+}
+
+// chunkLoopCarried: the types of the values carried around the outermost loop of f that contains a bitstream operation
+// (phis of its header), as a sorted list
+func chunkLoopCarried(p *Prog, f *ssa.Function) ([]string, *ssa.BasicBlock) {
+	memo := map[*ssa.Function]int{}
+	pred := bitstreamOpDeep(p, memo)
+	hasOp := func(b *ssa.BasicBlock) bool {
+		for _, in := range b.Instrs {
+			if pred(in) {
+				return true
+			}
+			if h := helperCallee(in, FnPkg(f)); h != nil && p.containsDeep(h, pred, memo) {
+				return true
+			}
+		}
+		return false
+	}
+	// loop headers: blocks with a predecessor they dominate
+	var best *ssa.BasicBlock
+	for _, b := range f.Blocks {
+		isHeader := false
+		for _, pr := range b.Preds {
+			if b.Dominates(pr) {
+				isHeader = true
+			}
+		}
+		if !isHeader {
+			continue
+		}
+		body := map[*ssa.BasicBlock]bool{}
+		for x := range reach(b, nil, nil) {
+			if b.Dominates(x) && reach(x, nil, nil)[b] {
+				body[x] = true
+			}
+		}
+		ops := false
+		for x := range body {
+			if hasOp(x) {
+				ops = true
+			}
+		}
+		if !ops {
+			continue
+		}
+		// outermost: not dominated by another qualifying header that contains it -> take the one with the smallest index
+		if best == nil || b.Dominates(best) {
+			best = b
+		}
+	}
+	if best == nil {
+		return nil, nil
+	}
+	// only coder state counts: carried values that derive from a field of the receiver (a model slot selected before
+	// the loop and kept across chunks); cursors over the caller's block are each side's own business
+	this := ssa.Value(nil)
+	if len(f.Params) > 0 {
+		this = f.Params[0]
+	}
+	var fieldOf func(v ssa.Value, d int) string
+	fieldOf = func(v ssa.Value, d int) string {
+		if v == nil || d > 8 {
+			return ""
+		}
+		switch x := v.(type) {
+		case *ssa.FieldAddr:
+			if x.X == this {
+				if fv := fieldVarOfAddr(x); fv != nil {
+					return fv.Name()
+				}
+			}
+			return fieldOf(x.X, d+1)
+		case *ssa.UnOp:
+			return fieldOf(x.X, d+1)
+		case *ssa.IndexAddr:
+			return fieldOf(x.X, d+1)
+		case *ssa.Index:
+			return fieldOf(x.X, d+1)
+		case *ssa.Slice:
+			return fieldOf(x.X, d+1)
+		case *ssa.Convert:
+			return fieldOf(x.X, d+1)
+		case *ssa.ChangeType:
+			return fieldOf(x.X, d+1)
+		case *ssa.Phi:
+			for _, e := range x.Edges {
+				if n := fieldOf(e, d+1); n != "" {
+					return n
+				}
+			}
+		}
+		return ""
+	}
+	var out []string
+	for _, in := range best.Instrs {
+		ph, ok := in.(*ssa.Phi)
+		if !ok {
+			break
+		}
+		for pi, pr := range best.Preds {
+			if best.Dominates(pr) {
+				continue // back edge
+			}
+			if n := fieldOf(ph.Edges[pi], 0); n != "" {
+				out = append(out, n)
+			}
+		}
+	}
+	sort.Strings(out)
+	return out, best
+}
+
+func ruleChunkState(p *Prog, r *RuleResult) {
+	pk := p.Pkg("entropy")
+	if pk == nil {
+		undecided("anchor unresolved: package entropy")
+	}
+	var prefixes []string
+	for name := range pk.Members {
+		if strings.HasSuffix(name, "Encoder") {
+			pre := strings.TrimSuffix(name, "Encoder")
+			if _, ok := pk.Members[pre+"Decoder"]; ok {
+				prefixes = append(prefixes, pre)
+			}
+		}
+	}
+	sort.Strings(prefixes)
+	n := 0
+	for _, pre := range prefixes {
+		fe := p.MethodOpt("entropy", pre+"Encoder", "Write")
+		fd := p.MethodOpt("entropy", pre+"Decoder", "Read")
+		if fe == nil || fd == nil {
+			continue
+		}
+		ce, he := chunkLoopCarried(p, fe)
+		cd, hd := chunkLoopCarried(p, fd)
+		if he == nil || hd == nil {
+			r.info(fmt.Sprintf("entropy.%s: no chunk loop with bitstream operations on both sides", pre), p.Pos(fe.Pos()))
+			continue
+		}
+		n++
+		if strings.Join(ce, ",") == strings.Join(cd, ",") {
+			r.ok(fmt.Sprintf("entropy.%s: both sides carry the same coder state from chunk to chunk (%v)", pre, ce), p.Pos(fe.Pos()))
+		} else {
+			r.fail(fmt.Sprintf("entropy.%s#carried-state", pre), p.Pos(fe.Pos()), fmt.Sprintf("the encoder carries coder state %v from one chunk to the next, the decoder %v: one side keeps a piece of coder state across the chunk boundary that the other side re-initialises, so the two models drift apart after the first chunk", ce, cd))
+		}
+	}
+	r.floor(3, n, "entropy encoder/decoder pairs with a chunk loop")
+}
